@@ -52,6 +52,10 @@ def run(idx, rep, tier):
     # headers handed to a csvpath are its own copy: append()/reset_headers() of one member must not leak into another (C08.R2)
     from . import c08
     c08.copies(idx, rep, "R5")
+    rep.rule("R6", "the file a name delivers is the content registered last under it (C11 store sequences, length <= 3)")
+    from . import c11
+    n, msg = c11.run_sequences(idx, 3)
+    rep.check(msg is None, "R6", "csvpath/managers/files/file_manager.py::a named file delivers the content registered last", msg or f"{n} operation sequences", "csvpath/managers/files/file_manager.py")
     rep.stats["exhaustive"] = True
 
 
@@ -191,14 +195,7 @@ def r4(idx, rep):
     rep.check(bad is None, "R4", f"{fi.file}::Header.to_value table", bad or f"{n} rows", K.where(fi, fi.node))
     rep.stats["table_rows"] = rep.stats.get("table_rows", 0) + n
     # Matcher.header_index: int passes through, numeric string → int, else the csvpath's header index; CsvPath.header_index: position or None
-    fh = idx.method("CsvPath", "header_index")
-    bad = None
-    for nm, want in (("a", 0), ("c", 2), ("zz", None)):
-        it = Interp(idx, types={"self": "CsvPath"}, unknown_calls="residual")
-        ps = it.run_all(fh, args={"name": nm}, store={"self.headers": list(headers)})
-        if len(ps) != 1 or ps[0].result != ("return", want):
-            bad = bad or f"header_index({nm!r}) = {ps[0].result}"
-    rep.check(bad is None, "R4", f"{fh.file}::CsvPath.header_index table", bad or "", K.where(fh, fh.node))
+    header_index_sequences(idx, rep, "R4")
 
 
 def r5(idx, rep):
@@ -243,3 +240,55 @@ def r5(idx, rep):
         if len(ps) != 1 or ps[0].result != ("return", [want]):
             bad = bad or f"clean_headers([{raw!r}]) = {ps[0].result}, documented [{want!r}] (trim; remove ; , | tab and back-tick)"
     rep.check(bad is None, "R5", f"{fc.file}::LineCounter.clean_headers table", bad or "", K.where(fc, fc.node))
+
+
+def header_index_sequences(idx, rep, rid):
+    """CsvPath.header_index over a *sequence* of look-ups on one instance (the instance state is what __init__ leaves): the first
+    column with the name (duplicate names), None for an unknown name, and always the headers of *now* — after append() added a name to
+    the list in place, after the headers setter replaced the list by one of the same length (reset_headers on a new header row)"""
+    fh = idx.method("CsvPath", "header_index")
+    rep.analysed(fh)
+    base = K.instance_store(idx, "CsvPath")
+
+    def first(hs, nm):
+        return hs.index(nm) if nm in hs else None
+
+    scenarios = [
+        ("plain", [("look", "a"), ("look", "c"), ("look", "zz"), ("look", "a")], ["a", "b", "c"]),
+        ("duplicate names", [("look", "a"), ("look", "b"), ("look", "a")], ["a", "b", "a", "b"]),
+        ("append in place", [("look", "a"), ("append", "d"), ("look", "d"), ("look", "a")], ["a", "b", "c"]),
+        ("headers replaced, same length", [("look", "b"), ("set", ["x", "y", "b"]), ("look", "b"), ("look", "x"), ("look", "a")], ["a", "b", "c"]),
+        ("no headers yet", [("look", "a")], None),
+    ]
+    bad = None
+    n = 0
+    for label, steps, hs0 in scenarios:
+        def program(it, steps=steps):
+            out = []
+            for op, arg in steps:
+                if op == "look":
+                    out.append(it.call_function(fh, {"__pos__": [arg]}, "self"))
+                elif op == "append":
+                    it.store["self._headers"].append(arg)
+                else:
+                    # through the property setter, as reset_headers()/the reader do
+                    it.assign(ast.parse("self.headers = 0").body[0].targets[0], list(arg), {"__self__": "self"})
+            return out
+
+        it = Interp(idx, types={"self": "CsvPath"}, unknown_calls="residual", inline={"CsvPath.headers"})
+        st = dict(base)
+        st["self._headers"] = None if hs0 is None else list(hs0)
+        ps = it.run_program(program, st)
+        n += 1
+        hs = None if hs0 is None else list(hs0)
+        want = []
+        for op, arg in steps:
+            if op == "look":
+                want.append(None if not hs else first(hs, arg))
+            elif op == "append":
+                hs.append(arg)
+            else:
+                hs = list(arg)
+        if len(ps) != 1 or ps[0].result != ("return", want):
+            bad = bad or f"{label}: headers {hs0}, steps {steps}: header_index answers {[p.result for p in ps][:2]}, documented {want} (the first column with that name in the headers as they are now)"
+    rep.check(bad is None, rid, f"{fh.file}::CsvPath.header_index sequences", bad or f"{n} scenarios", K.where(fh, fh.node))
